@@ -10,6 +10,7 @@ CONSTANTS
   ImsLe = TRUE
   ImsLocalTime = FALSE
   ImsNotAfterNow = FALSE
+  BigPositions = TRUE
   Tokens <- AttackTokens
   MaxTokens = 2
   StartPaths <- AttackSeeds
